@@ -148,6 +148,14 @@ func add(v interface{}, n int64) int64 {
 	return n
 }
 
+// AddEvals adds n evaluations of which distinct are distinct non-trivial cases.
+func (c *Ctx) AddEvals(n, distinct int64) {
+	c.mu.Lock()
+	c.evals += n
+	c.mergedDistinct += distinct
+	c.mu.Unlock()
+}
+
 func (c *Ctx) AddMC(states, transitions, traces int64) {
 	c.mu.Lock()
 	c.states += states
